@@ -49,6 +49,9 @@ type scriptConn struct {
 	// way a read deadline expiring in the middle of a frame does; no byte is consumed by it
 	failBefore map[int]bool
 	transient  int
+	// emptyBefore[i]: the read that would deliver chunk i first returns (0, nil) once
+	emptyBefore map[int]bool
+	empties     int
 }
 
 type scriptTimeout struct{}
@@ -66,6 +69,13 @@ func (c *scriptConn) Read(b []byte) (int, error) {
 		c.transient++
 
 		return 0, scriptTimeout{}
+	}
+	if c.emptyBefore[c.idx] {
+		// io.Reader: "0, nil" means nothing happened - neither data nor the end of the stream
+		delete(c.emptyBefore, c.idx)
+		c.empties++
+
+		return 0, nil
 	}
 	c.reads++
 	c.touched = max(c.touched, c.idx+1)
@@ -127,9 +137,13 @@ func checkSegmentation(rec *sim.Rec, stream []byte, cuts []int, segName string, 
 	frames, _, refErr := wire.SplitFrames(stream)
 	sc := &scriptConn{chunks: chunks}
 	if len(failBefore) > 0 {
-		sc.failBefore = map[int]bool{}
+		sc.failBefore, sc.emptyBefore = map[int]bool{}, map[int]bool{}
 		for _, i := range failBefore {
-			sc.failBefore[i] = true
+			if i < 0 {
+				sc.emptyBefore[-i-1] = true // (-i-1: an empty read instead of a timed-out one)
+			} else {
+				sc.failBefore[i] = true
+			}
 		}
 	}
 	conn := proto.NewSTUNConn(sc)
@@ -372,6 +386,17 @@ func runC10Stream(t *testing.T, rng *rand.Rand, rec *sim.Rec, tier string, caseN
 			fb := []int{rng.Intn(len(cuts) + 1)}
 			if rng.Intn(2) == 0 {
 				fb = append(fb, rng.Intn(len(cuts)+1))
+			}
+			if k%6 == 5 {
+				// ... or returning (0, nil): a transport may do that (net.Pipe after an empty write, TLS
+				// after a zero-length record, any custom conn) and it is not the end of the stream
+				for i := range fb {
+					fb[i] = -fb[i] - 1
+				}
+				checkSegmentation(rec, stream, cuts, "random+empty-reads", bufSize, fb...)
+				rec.Ev("segmentations-with-empty-reads")
+
+				continue
 			}
 			checkSegmentation(rec, stream, cuts, "random+timeouts", bufSize, fb...)
 		} else {
